@@ -60,6 +60,90 @@ CHECKS.update({
         note=TRUSTED + "Weighted inputs restricted to cubes of small rationals so that cube roots are rational."),
 })
 
+CHECKS.update({
+    "C02": dict(
+        text=("TLC checks the implementation-shaped Louvain/finetune machine (spec/LouvainImpl.tla: incremental "
+              "node-to-module sums as coded, sweep permutations as nondeterministic draws, arg-max with exact "
+              "ties, relabel, aggregation, q[h] stop rule, integer gains) on all small weighted graphs, all "
+              "start partitions and all visiting orders: bookkeeping, aggregation identity, gain = true delta, "
+              "returned q = Q(returned partition) at every level. Bound to the code both ways: TLC -simulate "
+              "behaviours are forced through a scripted RandomState and must return the model's (ci,q); real "
+              "runs of all ten routines emit move/level hook events that TLC (spec/Trace_Louvain.tla) judges "
+              "against the exact integer modularity (spec/Modularity.tla) for every gamma/qtype/objective."),
+        design="5 C02",
+        technique="TLA+ L2 Louvain machine model-checked by TLC; scripted replay + hook-trace validation against exact integer modularity",
+        note=TRUSTED + "Signed routines and community_louvain have no L2 machine of their own (bound by trace clauses only). "
+             "modularity_louvain_dir defects are listed in KNOWN_FINDINGS.json (pinned tests forbid the repair)."),
+    "C07": dict(
+        text=("Same specification, behaviours and traces as C02 with the C07 clause list: TLC proves on the L2 "
+              "machine that every move strictly raises the exact Q, aggregation preserves it and the hierarchy is "
+              "strictly increasing for every visiting order; on real executions TLC recomputes the exact Q before "
+              "and after every hooked move (MoveRaisesQ), compares Q(returned) with Q(start) for random start "
+              "partitions, checks hierarchy monotonicity and that feeding the output back never lowers Q."),
+        design="5 C07",
+        technique="TLA+ L2 Louvain machine (action properties) checked by TLC; per-move hook-trace validation with exact Q",
+        note=TRUSTED + "Integer weights, gamma in {3/4,1,5/4}. modularity_louvain_dir is covered by known findings."),
+    "C06": dict(
+        text=("TLC checks the L2 machine of randmio_und_signed/randmio_dir_signed (every sequence of four-node "
+              "picks) and an L1 machine of the null-model pipeline (sign-preserving rewiring, then dealing the "
+              "weights by any bijection) for signed degrees, positive/negative weight bags, diagonal, symmetry. "
+              "Scripted behaviours are replayed into the real routines; hook traces are validated step by step; "
+              "null_model_*_sign outputs are judged by TLC including an exact integer form of the returned "
+              "strength correlations (r^2 = cov^2/(vx*vy), sign of cov)."),
+        design="5 C06",
+        technique="TLA+ signed-swap machine checked by TLC; scripted replay, hook-trace validation, exact-integer correlation clause",
+        note=TRUSTED + "The weight-dealing order of the null models is only modelled as 'any bijection'. |w|<=3, n<=6 for correlations."),
+    "C03": dict(
+        text=("L0 distances by min-plus fixpoint cross-checked against enumerated simple paths; L2 machines of the "
+              "Dijkstra, Floyd-Warshall, algebraic, BFS and reachdist loops proved by TLC to terminate with the "
+              "L0 distance / a true minimum-path hop count on all small (di)graphs with tie-rich lengths; every "
+              "real call of the five routines, charpath, efficiency_bin/wei and rout_efficiency on those graphs and "
+              "random ones up to 12 nodes is validated by TLC (exact integers / exact fractions)."),
+        design="5 C03", technique="TLA+ definitional oracle + algorithm-shaped machines checked by TLC; TLC validation of recorded real calls",
+        note=TRUSTED + "'log' transform checked in units of ln 2 (weights 2^-k); exhaustive weighted digraphs only for n=3."),
+    "C12": dict(
+        text=("TLC proves on the Floyd-Warshall machine that following Pmat for hops[s,t] steps is a real minimum "
+              "path at every k, and checks the greedy-navigation machine's invariants; every path returned by "
+              "retrieve_shortest_path (all s,t, each transform) and navigation_wu on enumerated and random inputs "
+              "is validated edge by edge by TLC against the input matrix and the reported lengths."),
+        design="5 C12", technique="TLA+ Floyd/navigation machines checked by TLC; TLC validation of every returned path",
+        note=TRUSTED + "navigation_wu is only run with finite max_hops or on inputs where the spec predicts termination."),
+    "C08": dict(
+        text=("Two L0 definitions of shortest-path counts (path enumeration and distance-ordered DP) proved equal by "
+              "TLC; Brandes-style L2 machines (queue filled from the back, unreachable nodes in the leading slots, "
+              "dependency back-propagation with exact fractions) and the matrix-power scheme of betweenness_bin "
+              "proved equal to the definition on all small graphs; every real call of the four routines is "
+              "validated by TLC against the exact fraction, plus sum identities."),
+        design="5 C08", technique="TLA+ definitional oracle + Brandes machines checked by TLC; TLC validation of recorded real calls",
+        note=TRUSTED + "Directed N=4 with two lengths capped at 5 edges in the thorough model."),
+    "C10": dict(
+        text=("The table of weighted/binary, directed/undirected and weight-ignoring routine pairs is data in "
+              "spec/Relations.tla; TLC proves the reductions on the L0 operators and judges every recorded pair of "
+              "real outputs on all 0/1 digraphs n<=4, undirected n<=5, symmetric weighted and random matrices."),
+        design="5 C10", technique="TLA+ relation table; TLC lemma checking on L0 operators and validation of recorded output pairs",
+        note=TRUSTED + "Relational: a defect changing both members identically is out of reach here (covered by C03/C08/C09)."),
+    "C14": dict(
+        text=("TLC enumerates all 52 partitions of 5 nodes x injective relabellings into a pool of contiguous, "
+              "zero-based, negative, gapped and large labels, proves SamePartition is the intended equivalence, and "
+              "judges every recorded pair f(W,ci), f(W,relabel(ci)) plus the partition_distance and ci2ls/ls2ci "
+              "clauses."),
+        design="5 C14", technique="TLA+ relabelling relation; TLC enumeration of partitions x relabellings and validation of recorded pairs",
+        note=TRUSTED + "gateway_coef_sign is a known finding (pinned test forbids the repair). Entropies judged relationally only."),
+    "C15": dict(
+        text=("CoreSet is defined by subset enumeration (uniqueness asserted); the peeling machine of kcore_bu/bd, "
+              "score_wu and the coreness loop is proved by TLC to return it on all small graphs (half-integer s "
+              "grid); every real call incl. nestedness across k, coreness and peel order is validated by TLC."),
+        design="5 C15", technique="TLA+ subset-maximality definition + peeling machine checked by TLC; TLC validation of recorded real calls",
+        note=TRUSTED + "n>5 judged with the peeling operator proved equal to CoreSet in mc."),
+    "C17": dict(
+        text=("Exact-count/strongest-set semantics with teacher's rounding on rationals and tie-tolerant Keep "
+              "families in spec/Threshold.tla; a selection machine proved legal by TLC; every real call of the "
+              "thresholding and weight-conversion utilities (ties, sparse supports, .5 boundaries, copy flags) on "
+              "enumerated and random matrices is validated by TLC."),
+        design="5 C17", technique="TLA+ contract + selection machine checked by TLC; TLC validation of recorded real calls",
+        note=TRUSTED + "Weights are integers over denominators 1, 2, 4."),
+})
+
 REASON_TODO = "check not built yet in this round (planned, see DESIGN.md section 9); nothing is claimed"
 
 
